@@ -39,6 +39,10 @@ func (fs LocalFileSystem) externalPath(name string) (string, error) {
 	if err != nil {
 		return "", err
 	}
+	if rel == "." {
+		// the root itself
+		return "/", nil
+	}
 	return "/" + filepath.ToSlash(rel), nil
 }
 
@@ -115,7 +119,9 @@ func (fs LocalFileSystem) Stat(ctx context.Context, name string) (*FileInfo, err
 	if err != nil {
 		return nil, errFromOS(err)
 	}
-	return fileInfoFromOS(name, fi), nil
+	// Report the canonical path: "//a" or "/a/../b" as a href would not lead
+	// back to the resource
+	return fileInfoFromOS(path.Clean(name), fi), nil
 }
 
 func (fs LocalFileSystem) ReadDir(ctx context.Context, name string, recursive bool) ([]FileInfo, error) {
